@@ -218,6 +218,18 @@ func (w *Wire) Cut(lossC2S, lossS2C int) {
 	w.mu.Unlock()
 }
 
+// CutErr is Cut(0, 0) for an ungated wire with a read error other than EOF at the client (a timed-out or reset connection
+// as some transports report it).
+func (w *Wire) CutErr(cliErr error) {
+	w.Cut(0, 0)
+	w.mu.Lock()
+	if !w.gated && cliErr != nil {
+		w.s2c.eofErr = cliErr
+	}
+	w.cond.Broadcast()
+	w.mu.Unlock()
+}
+
 // Deliver hands the oldest in-flight frame of a direction to the reader and
 // waits until ReadMessage has taken it. Returns false if nothing was in flight.
 func (w *Wire) Deliver(toClient bool) bool {
